@@ -96,7 +96,31 @@ def run_case(case):
     return cid, hashlib.sha256(json.dumps(out, sort_keys=True, ensure_ascii=False).encode('utf-8')).hexdigest(), unchanged
 
 
+def pin_native_diff_locale():
+    """Attribution aid for the listed finding C17-dmp-locale: runs the native diff-match-patch call of compute_dmp_diff (and only
+    that call) under a fixed LC_CTYPE.  If a locale-dependent result becomes locale-independent with this pin, the dependence flows
+    through that call site; anything else that depends on the locale still shows."""
+    import locale
+    import web_monitoring_diff.basic_diffs as bd
+    native = bd.diff
+
+    def pinned(*args, **kwargs):
+        old = locale.setlocale(locale.LC_CTYPE)
+        locale.setlocale(locale.LC_CTYPE, 'C.UTF-8')
+        try:
+            return native(*args, **kwargs)
+        finally:
+            locale.setlocale(locale.LC_CTYPE, old)
+    bd.diff = pinned
+
+
 def main():
+    if os.environ.get('WMD_VERIF_PIN_DMP_LOCALE'):
+        pin_native_diff_locale()
+    if len(sys.argv) > 1 and sys.argv[1] == 'one':          # one call: purity_worker.py one <route> <json kwargs>
+        cid, d, ok = run_case(('one', sys.argv[2], json.loads(sys.argv[3])))
+        print(json.dumps({'digests': {cid: d}}))
+        return
     order = sys.argv[1] if len(sys.argv) > 1 else 'natural'
     passes = int(sys.argv[2]) if len(sys.argv) > 2 else 1
     cases = workload()
